@@ -155,3 +155,10 @@ Definition parse_line (s : string) : tedit :=
   else if prefix del_prefix s then Del (substring 2 (String.length s - 2) s)
   else Keep s.
 Definition plain (s : loc) : bool := negb (prefix add_prefix s) && negb (prefix del_prefix s).
+
+(* ---- the registry side (func.go:154-207).  bigslice.Func appends a FuncValue
+        whose file:line is runtime.Caller(1), the place Func was called from;
+        FuncLocations lists them in registration order.  A registry is modelled by
+        the list of the creation sites of its Funcs. ---- *)
+Definition func_register (registry : list loc) (site : loc) : list loc := registry ++ [site].
+Definition func_locations (registry : list loc) : list loc := registry.
